@@ -62,7 +62,7 @@ Definition g_push (c : ctx) (f : fr) : ctx := C (c_inl c) (f :: c_blk c) (c_meta
 Definition close_into (top f : fr) : option fr :=
   match top with
   | FQuote _ => Some (FQuote (fr_aok f))
-  | FList _ => Some (FList (fr_aok f))
+  | FList _ => Some (FList true)     (* an inline that follows opens a paragraph of its own *)
   | FList0 => None
   | _ => Some top        (* paragraph, heading, code, table: the child is dropped *)
   end.
@@ -162,7 +162,7 @@ Fixpoint abs_blk (b : pblock) : fr :=
   let fix items_fr (l : list (list pblock)) : fr :=
     match l with
     | [] => FList0
-    | it :: [] => FList (last_aok it)
+    | it :: [] => FList true
     | _ :: r => items_fr r
     end in
   match b with
@@ -183,7 +183,7 @@ Fixpoint last_aok (l : list pblock) : bool :=
 Fixpoint items_fr (l : list (list pblock)) : fr :=
   match l with
   | [] => FList0
-  | it :: [] => FList (last_aok it)
+  | it :: [] => FList true
   | _ :: r => items_fr r
   end.
 
@@ -210,7 +210,7 @@ Proof.
   cbn [app]. destruct t as [|y t]; [reflexivity|]. exact IH.
 Qed.
 
-Lemma items_fr_snoc items it : items_fr (items ++ [it]) = FList (last_aok it).
+Lemma items_fr_snoc items it : items_fr (items ++ [it]) = FList true.
 Proof.
   induction items as [|x t IH]; [reflexivity|].
   cbn [app]. destruct t as [|y t]; [reflexivity|]. exact IH.
@@ -274,6 +274,17 @@ Proof.
     + now rewrite (IHf Ha).
 Qed.
 
+Lemma app_tail_ok f i lr l :
+  Forall (follows f) l -> exists l', app_tail f i lr l = Ok l'.
+Proof.
+  intros HF. induction HF as [|x t Hx Ht IH]; [eexists; reflexivity|].
+  destruct t as [|y t].
+  - cbn [app_tail]. destruct x; try (eexists; reflexivity).
+    destruct Hx as [Ht1 _]. destruct (Ht1 eq_refl) as [b' [E1 _]]. rewrite E1. eexists; reflexivity.
+  - change (app_tail f i lr (x :: y :: t)) with (do r' <- app_tail f i lr (y :: t); Ok (x :: r')).
+    destruct IH as [l' E]. rewrite E. eexists; reflexivity.
+Qed.
+
 Lemma app_item_abs f i lr items :
   Forall (Forall (follows f)) items ->
   (fr_aok (items_fr items) = true ->
@@ -283,13 +294,9 @@ Proof.
   intros HF. induction HF as [|it t Hit Ht IH].
   - split; [discriminate|reflexivity].
   - destruct t as [|it' t].
-    + cbn [items_fr fr_aok app_item]. destruct it as [|x u].
-      * split; [|discriminate]. intros _. eexists. split; reflexivity.
-      * assert (Hne : x :: u <> []) by discriminate.
-        destruct (app_last_abs f (x :: u) Hne Hit) as [At Af]. split; intros Ha.
-        -- destruct (At Ha) as [l' [E1 E2]]. rewrite E1. cbn [bind].
-           eexists. split; [reflexivity|]. cbn [items_fr]. now rewrite E2, Ha.
-        -- now rewrite (Af Ha).
+    + cbn [items_fr fr_aok app_item]. split; [|discriminate]. intros _.
+      destruct (app_tail_ok f i lr it Hit) as [l' E]. rewrite E. cbn [bind].
+      eexists. split; reflexivity.
     + change (items_fr (it :: it' :: t)) with (items_fr (it' :: t)).
       change (app_item f i lr (it :: it' :: t))
         with (do r' <- app_item f i lr (it' :: t); Ok (it :: r')).
@@ -327,13 +334,12 @@ Lemma push_last_item_abs items b :
   match items_fr items with
   | FList0 => push_last_item items b = Panic "append_block: unwrap on None"
   | _ => exists items', push_last_item items b = Ok items' /\
-                        items_fr items' = FList (fr_aok (abs_blk b))
+                        items_fr items' = FList true
   end.
 Proof.
   induction items as [|it t IH]; [reflexivity|].
   destruct t as [|it' t].
-  - cbn [items_fr push_last_item]. eexists. split; [reflexivity|].
-    cbn [items_fr]. now rewrite last_aok_snoc.
+  - cbn [items_fr push_last_item]. eexists. split; reflexivity.
   - change (items_fr (it :: it' :: t)) with (items_fr (it' :: t)).
     change (push_last_item (it :: it' :: t) b)
       with (do r' <- push_last_item (it' :: t) b; Ok (it :: r')).
@@ -971,7 +977,7 @@ Proof.
   assert (Em : meta_of (f :: k) = false) by (destruct f; try discriminate; reflexivity).
   unfold g_pop_block, proj. cbn [c_blk c_inl c_meta blk_of]. rewrite Ef, Ei, Em, Hm.
   destruct Hk as [-> | [t [r [E Ht]]]]; [reflexivity|].
-  rewrite E. destruct Ht as [-> | ->]; cbn [close_into]; now rewrite Ha.
+  rewrite E. destruct Ht as [-> | ->]; cbn [close_into]; [now rewrite Ha|reflexivity].
 Qed.
 
 Lemma push_doc f k fr0 : allowed f k = true -> is_block_nt f = true -> f <> NMeta -> f <> NHtml ->
@@ -1189,15 +1195,17 @@ Example ex_doc_in : inG_doc ex_doc = true /\ inG ex_doc = true.
 Proof. repeat split; reflexivity. Qed.
 
 (* text directly inside a tight item after a code block ("- a\n  ```\n  c\n  ```\n  t"): in
-   both grammars, no panic — the text is silently dropped by `append_inline` (CodeBlock arm),
-   which is a loss of content (properties C01/C02), not a crash *)
+   both grammars, no panic.  As found the text was handed to the item's last block - silently dropped by
+   the CodeBlock / HorizontalRule arms of `append_inline`, glued onto a heading, put into the last cell of a
+   table (finding F-TIGHT-AFTER-BLOCK, a loss of content: C01 C05 C13).  Since the repair it opens a
+   paragraph of its own. *)
 Definition ex_tight_tail : list ev :=
   [ EStart TList 0 24; EStart TItem 0 24; EText 1 2 3;
     EStart TCodeBlock 6 19; EText 2 12 14; EEnd TCodeBlock; EText 1 22 23; EEnd TItem; EEnd TList ].
 Example ex_tight_tail_in :
   inG_doc ex_tight_tail = true /\
   read_events (Mode (fun s e => (s, e)) (fun s e => ((0, s), (0, e))) false) ex_tight_tail
-  = Ok [BList [[BPara (2, 3) [PStr 1]; BCode (6, 19)]]].
+  = Ok [BList [[BPara (2, 3) [PStr 1]; BCode (6, 19); BPara (22, 23) [PStr 1]]]].
 Proof. split; reflexivity. Qed.
 
 (* streams the machine survives although no parser emits them: [inG] is strictly larger *)
